@@ -76,3 +76,10 @@ def search(ctx):
 
 def replay(ctx, case):
     return replay_eval(ctx, "C02", case)
+
+
+MANIFEST = dict(
+    text="Proof (MODULAR/PARTIAL): the demultiplexing identity U1(+)U2 = (V(+)V)(D(+)D^-1)(W(+)W) under the premises V unitary, U1 U2^-1 = V D^2 V^-1, W = D V^-1 U2 (C02_demux, any field, any dimension); the multiplexed rotations used by the synthesis are C13's theorems. Tie: on every _compute_gates and scipy cossin call made while synthesising structured (identity, diagonal, permutation, tensor, block, orthogonal, Hadamard, -I) and Haar unitaries the premises are checked numerically at 1e-8. The recursive wiring, A.1/A.2, isometry mode and QR are evaluated: operator vs matrix for every option, n<=4/6.",
+    note="Modelled, not verified: scipy cossin / numpy eig, Qiskit's _apply_a2, UCRZGate, UCGate, UnitaryGate synthesis; wiring of build_unitary is evaluated only.",
+    technique='Coq/mathcomp proof (block matrices over any field) + runtime contract monitors + numpy operator comparison',
+    design_ref='DESIGN.md section 4, C02')
